@@ -118,6 +118,7 @@ func NewTarget(targetURL string, options TargetOptions) (*Target, error) {
 	}
 
 	target.proxyHandler = target.createProxyHandler()
+	verifProxy(target.proxyHandler)
 
 	if options.BufferResponses {
 		target.proxyHandler = WithResponseBufferMiddleware(options.MaxMemoryBufferSize, options.MaxResponseBodySize, target.proxyHandler)
@@ -168,6 +169,7 @@ func (t *Target) SendRequest(w http.ResponseWriter, req *http.Request) {
 
 	inflightRequest := t.getInflightRequest(req)
 	defer t.endInflightRequest(req)
+	verifPoint("target.claimed", req, t)
 
 	tw := newTargetResponseWriter(w, inflightRequest)
 	t.proxyHandler.ServeHTTP(tw, req)
@@ -262,6 +264,7 @@ func (t *Target) HealthCheckCompleted(success bool) {
 	if newState != previousState {
 		slog.Info("Target health updated", "target", t.Target(), "state", newState.String(), "was", previousState.String())
 
+		verifPoint("target.health-changed", t)
 		if t.stateConsumer != nil {
 			t.stateConsumer.TargetStateChanged(t)
 		}
